@@ -80,6 +80,8 @@ def join_pre(l0, l1, l2, r0, r1, r2, m0, m1, m2, s0, s1, s2, p0, p1, p2, q0, q1,
         return False
     if K >= 2 and not H.rgs_ok(m[:nl] + s[:nr]):
         return False
+    if c.get('K2const') and not all(x == 0 for x in m[:nl] + s[:nr]):
+        return False      # second key column constant: keeps the pattern count of a 3-component key at that of one column
     if not c.get('nones', True):
         if nc != -1 or nc2 != -1:
             return False
